@@ -15,7 +15,7 @@ C09, C10), not from the code.  Two views of the binary format:
 writer options.  Sequence folds are range folds with explicit indices so that
 loop invariants need no induction (DESIGN 3.2).
 """
-from pyvc.specs import spec, opaque, dset, seq_items
+from pyvc.dsl import spec, opaque, dset, seq_items
 from pyvc.contracts import implies
 from spec.core import (zigzag, varint, long_bytes, utf8, utf8_valid, utf8_decode, double_bytes,
                        float_bytes, num_to_float, le_bytes4, le_bytes8, f_of_single,
@@ -188,7 +188,31 @@ def FIELDS_CONFORM(fs: list, d: dict, ns: dict, o: dict, k: int) -> bool:
 
 
 @spec
+def BRANCH_NAME(b: object) -> object:
+    """the name a (name, value) hint is matched against (C09): the full name of a named
+    type definition, the reference string for by-name branches, the type name otherwise"""
+    if isinstance(b, dict) and (b["type"] == "record" or b["type"] == "error" or b["type"] == "enum"
+                                or b["type"] == "fixed"):
+        return b["name"]
+    return TYPE(b)
+
+
+@spec
+def HINTED(u: list, name: object, k: int) -> int:
+    """index of the first branch of u[k:] whose name is `name`; -1 when there is none"""
+    if k >= len(u):
+        return -1
+    if BRANCH_NAME(u[k]) == name:
+        return k
+    return HINTED(u, name, k + 1)
+
+
+@spec
 def UNION_CONFORMS(d: object, u: list, ns: dict, o: dict) -> bool:
+    """a (name, value) tuple is a hint (unless tuple notation is disabled): it must name a
+    branch, and the value must conform to the first branch of that name"""
+    if isinstance(d, tuple) and not o.get("disable_tuple_notation"):
+        return len(d) == 2 and HINTED(u, d[0], 0) >= 0 and CONFORMS(d[1], u[HINTED(u, d[0], 0)], ns, o)
     return ANY_BRANCH(d, u, ns, o, 0)
 
 
